@@ -130,3 +130,26 @@ Section Inst.
     split; [exact A|]. split; [exact B|]. split; [exact C | exact D].
   Qed.
 End Inst.
+
+(* C05 / C08 on the translated step (model's utils) *)
+Section Inst2.
+  Variable n : Z.
+  Variable di : list bool -> Z.
+  Variable dv : Z.
+  Local Notation sstep := (step n (mv_model n) (cm_model n) di dv).
+  (* C05: a move whose stored mask entry is False leaves board, mask and score untouched; only the step counter advances; reward 0 *)
+  Lemma src_illegal_ignored s a : Inv n (conv s) -> 0 <= a < 4 -> jget false (s_action_mask s) a = false ->
+    conv (fst (sstep s a)) = M.mkS (s_board s) (s_action_mask s) (s_score s) (s_step_count s + 1)
+    /\ snd (sstep s a) = cond_done 1 (negb (existsb id (s_action_mask s))) [0].
+  Proof.
+    intros I Ha Hm. pose proof (step_model n di dv s a) as E.
+    rewrite (illegal_ignored n (conv s) a (idx_of n di s a) dv I Ha Hm) in E. apply Some_inj in E.
+    split; [exact (eq_sym (f_equal fst E)) | exact (eq_sym (f_equal snd E))].
+  Qed.
+  (* C08: the score is the running sum of the rewards, and the reward of a step is the potential gained by the slide *)
+  Lemma src_score_is_reward_sum s a : exists r, reward (snd (sstep s a)) = [r] /\ s_score (fst (sstep s a)) = s_score s + r.
+  Proof.
+    unfold step, mv_model. cbn [fst snd s_score]. eexists. split; [|reflexivity].
+    destruct (negb _); reflexivity.
+  Qed.
+End Inst2.
